@@ -259,9 +259,13 @@ def parse(kind: str, text: str) -> t.Dict[str, t.Any]:
                 f[field] = p.oid()
         if p.try_keyword("SYNTAX"):
             p.sp()
-            if p.peek() == "'":  # Active Directory's quoted variant
+            if p.peek() == "'":  # Active Directory's quoted variant (optionally with the length bound inside the quotes)
                 p.i += 1
                 f["syntax"] = p.numericoid()
+                if p.peek() == "{":
+                    p.i += 1
+                    f["syntax_length"] = int(p.number())
+                    p.lit("}")
                 p.lit("'")
             else:
                 f["syntax"] = p.numericoid()
@@ -488,9 +492,14 @@ def sentence(draw: t.Any, kind: str, ad_syntax: bool = True) -> t.Dict[str, t.An
                 f[field] = o
         if draw(st.booleans()):
             o = draw(gens.numericoid())
-            form = draw(st.sampled_from(["plain", "plain", "len", "ad"] if ad_syntax else ["plain", "len"]))
+            form = draw(st.sampled_from(["plain", "plain", "len", "ad", "ad-len"] if ad_syntax else ["plain", "len"]))
             if form == "ad":
                 parts.append(sp() + "SYNTAX" + sp() + f"'{o}'")
+                stats["ad-syntax"] = 1
+            elif form == "ad-len":
+                n = draw(st.one_of(st.integers(0, 9), st.integers(10, 10**6)))
+                parts.append(sp() + "SYNTAX" + sp() + f"'{o}{{{n}}}'")
+                f["syntax_length"] = n
                 stats["ad-syntax"] = 1
             elif form == "len":
                 n = draw(st.one_of(st.integers(0, 9), st.integers(10, 10**6)))
